@@ -87,6 +87,11 @@ def _map_query_error(error: duckdb.Error, sql_query: str) -> Exception:
             "2-1-19-19", value1=parts[0].strip(), op="comparison", value2=parts[1].strip()
         )
 
+    # VTL macro: SDMX Gregorian output cannot express S/Q/W periods (check before 2-1-19-1 prefix match)
+    if "vtl error 2-1-19-21" in msg_lower:
+        period = msg.split("got ")[-1].strip()[:1] if "got " in msg else "unknown"
+        return RunTimeError("2-1-19-21", period=period)
+
     # daytoyear / daytomonth: negative input value (check before 2-1-19-1 prefix match)
     if "vtl error 2-1-19-16" in msg_lower:
         op = "daytoyear" if "daytoyear" in msg_lower else "daytomonth"
@@ -409,9 +414,16 @@ def fetch_result(
         Dataset or Scalar with result data
     """
     # Apply time period representation before saving/fetching
-    apply_time_period_representation(
-        conn, result_name, output_datasets, output_scalars, representation
-    )
+    try:
+        apply_time_period_representation(
+            conn, result_name, output_datasets, output_scalars, representation
+        )
+    except duckdb.Error as e:
+        # The representation macros raise VTL errors (e.g. 2-1-19-21) through error()
+        mapped = _map_query_error(e, "")
+        if mapped is not e:
+            raise mapped from e
+        raise
 
     # Scalars are always fetched in-memory (never saved to CSV)
     if result_name in output_scalars:
